@@ -81,6 +81,7 @@ TEMPLATES = [
     ("insert into {w} values (1, 2)", 0),
     ("create table {w} (k int)", 0),
     ("update {w} set k = 1", 0),
+    ("update {w} set k = v", 0),
     ("update {w} set k = t.k from {r1} t", 1),
     ("insert into {w} select * from {w}", 0),
     ("drop table {w}", 0),
